@@ -37,9 +37,13 @@ pub struct FileStorage {
 impl FileStorage {
     fn apply_wal_record(file: &mut File, record: WriteAheadLogRecord) -> Result<(), DbError> {
         if record.value.is_empty() {
+            #[cfg(agdb_verif)]
+            crate::verif::fs_event("data", "set_len", record.pos, &[]);
             file.set_len(record.pos)?;
         } else {
             file.seek(SeekFrom::Start(record.pos))?;
+            #[cfg(agdb_verif)]
+            crate::verif::fs_event("data", "write", record.pos, &record.value);
             file.write_all(&record.value)?;
         }
 
@@ -117,6 +121,8 @@ impl StorageData for FileStorage {
         let mut buffer = vec![0_u8; value_len as usize];
 
         if let Ok(_guard) = self.lock.try_lock() {
+            #[cfg(agdb_verif)]
+            crate::verif::fs_event("data", "read_locked", pos, &[]);
             Self::read_impl(&self.file, pos, &mut buffer)?;
         } else {
             Self::read_impl(&self.open_file()?, pos, &mut buffer)?;
@@ -145,6 +151,8 @@ impl StorageData for FileStorage {
             self.wal.insert(current_len, &[])?;
         }
 
+        #[cfg(agdb_verif)]
+        crate::verif::fs_event("data", "set_len", new_len, &[]);
         self.file.set_len(new_len)?;
         self.len = new_len;
         Ok(())
@@ -161,6 +169,8 @@ impl StorageData for FileStorage {
         Self::read_impl(&self.file, pos, &mut buffer)?;
         self.wal.insert(pos, &buffer)?;
         self.file.seek(SeekFrom::Start(pos))?;
+        #[cfg(agdb_verif)]
+        crate::verif::fs_event("data", "write", pos, bytes);
         self.file.write_all(bytes)?;
         self.len = std::cmp::max(current_len, end);
         Ok(())
